@@ -101,6 +101,11 @@ CHECKS = {
             "Generated configurations incl. n<8, n>N, k=2 and extreme gadget/key-switch layouts, with lifecycles covering encrypt, gates, bootstraps, export/import, thread exit and deletion orders, on all five back-ends.",
             "MSan is unusable here; uninitialised reads are covered by valgrind (bounded) and the fill-byte differential. LeakSanitizer treats objects kept by the library's global collector as reachable (not leaks).",
             "DESIGN.md §3 C16"),
+    "C20": ("exploration", "E2+E1",
+            "differential enumeration over 10 library variants x EXPORT-declared names (nm), public headers x {C99, C++11} (compile alone), public structures x fields (gdb ptype /o on a C and a C++ object), plus seeded generation of gate-API programs rendered as C and as C++ and run against every variant",
+            "Parts (a)-(c) enumerate the finite configuration set completely (409 names, 19 headers, 20 structures / 81 fields today); part (d) generates programs and compares C vs C++ renderings and all variants against a plaintext model.",
+            "x86-64 SysV ABI with the installed gcc; undeclared back-end-internal symbols are listed but deliberately not compared. Program generation is seeded (python random) with removal-based minimisation rather than a PBT library.",
+            "DESIGN.md §3 C20"),
 }
 
 ALL = ["C%02d" % k for k in range(1, 21)]
